@@ -9,7 +9,8 @@ def factory_closure(prog, qname, arg=("param", "n")):
     f = prog.func(qname)
     mod = qname.rsplit(".", 1)[0]
     # private helpers of the factory's module are expanded, so that extracting one does not hide the draw
-    S = Sym(prog, inline=lambda g: g.name.startswith("_") and not g.name.startswith("__"))
+    from ..sym import private_class
+    S = Sym(prog, inline=lambda g: (g.name.startswith("_") and not g.name.startswith("__")) or private_class(g))
     summ, _ = run_function(S, f)
     clo = summ.ret
     if not isinstance(clo, (Closure, PartialV)):
